@@ -23,7 +23,7 @@ ID = "C45"
 LEVEL = "exploration"
 TECHNIQUE = "exhaustive grammar enumeration of s-expressions x policies with side-effect instrumentation; exhaustive small object graphs"
 RULE = ("security: all s-expressions of depth <= D built from the 3 naming atoms (module/class/function) and the generic "
-        "dotted-type form over a 42-name alphabet (dotted and undotted) (one name per resolution special case: allowed / disallowed / "
+        "dotted-type form over a 45-name alphabet (dotted and undotted) (one name per resolution special case: allowed / disallowed / "
         "never-imported module, allowed-module attribute that is a disallowed module, unlisted class, foreign class, "
         "foreign function, sub-attribute chains, package with one allowed submodule, malformed names), wrapped by every "
         "structural tag (instance, method, list, tuple, dictionary key/value, set, frozenset, reference, forward and "
@@ -60,9 +60,21 @@ import c45ok_log
 import c45evil as evil
 from c45evil import Bad as ImportedBad, g as imported_g
 from os import system as imported_system
-class Good:
+class GoodBase:
+    def basemeth(self):
+        return 0
+class Good(GoodBase):
     def meth(self):
         return 1
+class GoodChild(Good):
+    def __new__(cls, *a, **k):
+        c45ok_log.LOG.append("instantiated:c45ok.GoodChild")
+        return object.__new__(cls)
+    def __setstate__(self, state):
+        c45ok_log.LOG.append("setstate:c45ok.GoodChild")
+        self.__dict__ = state if isinstance(state, dict) else {}
+class GoodSibling(GoodBase):
+    pass
 class Other:
     def __new__(cls, *a, **k):
         c45ok_log.LOG.append("instantiated:c45ok.Other")
@@ -256,6 +268,9 @@ QUAL_NAMES = [
     (b"builtins.eval", "disallowed.attr"), (b"builtins.int", "disallowed.attr"), (b"c45pkg.inner.Deep", "allowed-class"),
     (b"c45pkg.secret.S", "unimported-disallowed.attr"), (b"c45pkg.inner", "parent.attr=allowed-submodule"),
     (b"c45ok.WithMeta", "allowed.attr=unlisted-class"), (b"c45ok.RegCopy", "allowed.attr=unlisted-class"),
+    (b"c45ok.GoodChild", "allowed.attr=unlisted-subclass-of-allowed-class"),
+    (b"c45ok.GoodBase", "allowed.attr=unlisted-superclass-of-allowed-class"),
+    (b"c45ok.GoodSibling", "allowed.attr=unlisted-sibling-of-allowed-class"),
     (b"c45ok.nonexistent", "malformed"), (b"Good", "malformed"), (b"", "malformed"), (b"c45ok.", "malformed"),
     (b".c45ok", "malformed"), (b"c45ok..Good", "malformed"), (b"c45ok", "allowed-module"),
     # undotted names: the "module part" is empty, nothing may be imported or resolved for them
@@ -522,7 +537,8 @@ def security_case(env, stats, pname, sexp, label):
 
 HIST_NAMES = [b"c45ok.Good", b"c45ok.Other", b"c45ok.func", b"c45ok.os", b"c45ok.evil", b"c45ok.ImportedBad",
               b"c45ok.imported_g", b"c45ok.evil.Bad", b"c45evil.Bad", b"c45evil.g", b"c45lazy.X", b"os.system",
-              b"c45pkg.inner.Deep", b"c45pkg.secret.S", b"c45lazy", b"c45ok"]
+              b"c45pkg.inner.Deep", b"c45pkg.secret.S", b"c45lazy", b"c45ok",
+              b"c45ok.GoodChild", b"c45ok.GoodBase"]
 HIST_MODULES = [b"c45ok", b"c45evil", b"c45lazy", b"os", b"c45pkg.inner", b"c45pkg.secret"]
 HIST_POLICIES = ["dummy", "evil-instances+function", "instances+function", "instances", "basic"]
 
